@@ -65,6 +65,8 @@ func PlayMode(beh M, rng *rand.Rand, proj *Projection, mode int) ([]M, error) {
 	conn := x.Dial()
 	cz := &Concretiser{X: x, Rng: rng}
 	wedged := false
+	var gluedBytes []byte
+	var gluedEvs []mem.Ev
 	wait := func() bool {
 		if _, err := conn.WaitQuiet(WaitTimeout); err != nil {
 			x.Log.Append(mem.Ev{"k": "wedged", "conn": conn.ID})
@@ -138,8 +140,14 @@ func PlayMode(beh M, rng *rand.Rand, proj *Projection, mode int) ([]M, error) {
 				conn.BeginClientWrite()
 				tc.Write(b) //nolint
 				conn.EndClientWrite()
+			} else if B(st, "glue") {
+				// held back: reaches the server in one write together with the next message
+				gluedBytes = append(gluedBytes, b...)
+				gluedEvs = append(gluedEvs, mem.Ev{"k": "send", "m": m})
+				continue
 			} else {
-				conn.Send(b, mem.Ev{"k": "send", "m": m})
+				conn.Send(append(gluedBytes, b...), append(gluedEvs, mem.Ev{"k": "send", "m": m})...)
+				gluedBytes, gluedEvs = nil, nil
 			}
 			if !B(st, "nowait") {
 				wait()
@@ -194,6 +202,9 @@ func PlayMode(beh M, rng *rand.Rand, proj *Projection, mode int) ([]M, error) {
 				conn.FailAfterBytes(I(st, "after"))
 			}
 		}
+	}
+	if len(gluedBytes) > 0 {
+		conn.Send(gluedBytes, gluedEvs...) // a trailing held message is sent after all
 	}
 	if !wedged && !conn.ServerClosed() {
 		conn.CloseClient()
